@@ -15,7 +15,8 @@ def run(chk, tier):
     # generator tables: primitive name -> C++ type / size / wrapper class (value_type and signedness of what getters return)
     gtab.check(chk, sbeppc_facts(), which=("keys", "sizes", "wrapper"))
     for name, std in ([("vprims_le", "c++17"), ("vprims_be", "c++17")] +
-                      ([("vprims_be", "c++20"), ("vprims_le", "c++20"), ("vprims_be", "c++11"), ("vdims", "c++17"), ("vheaders", "c++17")] if tier == "thorough" else [("vprims_be", "c++20")])):
+                      ([("vprims_be", "c++20"), ("vprims_le", "c++20"), ("vprims_be", "c++11"), ("vdims", "c++17"), ("vheaders", "c++17")] if tier == "thorough"
+                       else [("vprims_be", "c++20"), ("vprims_le", "c++20")])):
         spec_codec.check(chk, lib_for(name, std), ("set",))
     spec_layout.check_validator_recurrence(chk)
     e4.check(chk, ("accessors", "cursor", "fillers"), tier)
